@@ -173,6 +173,9 @@ def oracle_c03(sc, res):
         v.append(dict(kind='job-thread-' + res.job[0]))
     if not all(res.empty):
         v.append(dict(kind='session-left'))
+    # 'acknowledged as the standard requires ... whichever legal choices the peer makes: ... its own window limit announced in
+    # the RTS': the CTS frames the stack answers with are part of that
+    v += [x for x in oracle_c09(sc, res) if x['kind'] in ('over-grant', 'cts-next-packet-number', 'zero-grant-without-hold')]
     return v
 
 
